@@ -771,7 +771,7 @@ func checkAndDeleteKey(ctx context.Context,
 		var e error
 		attrs, e = blob.GetAttr(ctx, key)
 		if !errors.Is(e, status.ErrNotExists) {
-			return err
+			return e
 		}
 
 		return nil
@@ -779,6 +779,9 @@ func checkAndDeleteKey(ctx context.Context,
 		backoff.WithContext(insistantBackoff(), ctx),
 	); err != nil {
 		logger.Error("retrieving blob attributes", zap.Error(err))
+
+		// the age of the blob is unknown: never delete it on a guess
+		return err
 	}
 
 	// the blob has been created after the index: skip
